@@ -39,7 +39,10 @@ def build(prog, labels, missing, preset, mirrored=False):
     o.origin = 'self'
 
     def setitem(attr, key, val):
-        tbl = o.attrs.get(attr)
+        try:
+            tbl = ip.get_attr(o, attr, None)            # plain attribute or property
+        except Raised:
+            tbl = None
         if not isinstance(tbl, Obj):
             raise Unsupported('System.%s is %r' % (attr, tbl))
         m = ip.find_method(tbl, '__setitem__')
